@@ -2,6 +2,7 @@ package engine
 
 import (
 	"fmt"
+	"strings"
 	"go/types"
 	"sort"
 
@@ -25,7 +26,12 @@ func (vc *VC) candidateInvariants() (map[int][]*Clause, error) {
 			*list = append(*list, s)
 		}
 	}
+	var frames []string // expressions whose value may simply be unchanged by a loop
 	for _, p := range fn.Params {
+		if pt, ok := p.Type().Underlying().(*types.Pointer); ok && isInteger(pt.Elem()) {
+			add(&ints, "deref("+p.Name()+")")
+			frames = append(frames, "deref("+p.Name()+")")
+		}
 		switch p.Type().Underlying().(type) {
 		case *types.Slice:
 			add(&lens, p.Name())
@@ -50,8 +56,14 @@ func (vc *VC) candidateInvariants() (map[int][]*Clause, error) {
 			expr := par.Name() + "." + f.Name()
 			switch {
 			case isString(f.Type()):
+				if !seen[expr] {
+					frames = append(frames, expr)
+				}
 				add(&lens, expr)
 			case isInteger(f.Type()):
+				if !seen[expr] {
+					frames = append(frames, expr)
+				}
 				add(&ints, expr)
 			default:
 				if _, ok := f.Type().Underlying().(*types.Slice); ok {
@@ -60,8 +72,24 @@ func (vc *VC) candidateInvariants() (map[int][]*Clause, error) {
 			}
 		}
 	}
+	// address-taken integer/string locals live in memory, not in phis
+	var memInts, memStrs []string
+	for _, b := range fn.Blocks {
+		for _, in := range b.Instrs {
+			if al, ok := in.(*ssa.Alloc); ok && al.Comment != "" {
+				T := al.Type().Underlying().(*types.Pointer).Elem()
+				if isInteger(T) {
+					memInts = append(memInts, al.Comment)
+				} else if isString(T) {
+					memStrs = append(memStrs, al.Comment)
+				}
+			}
+		}
+	}
 	for head, li := range e.loops {
 		var ivars, svars []string
+		ivars = append(ivars, memInts...)
+		svars = append(svars, memStrs...)
 		for _, in := range head.Instrs {
 			phi, ok := in.(*ssa.Phi)
 			if !ok {
@@ -90,9 +118,32 @@ func (vc *VC) candidateInvariants() (map[int][]*Clause, error) {
 			out[li.ordinal] = append(out[li.ordinal], &Clause{Kind: "invariant", Src: s, Expr: x, Loop: li.ordinal, Cand: true, Tag: fmt.Sprintf("cand%d", len(out[li.ordinal]))})
 			srcs = append(srcs, s)
 		}
+		// declared type invariants of pointer parameters are always candidates
+		for _, par := range fn.Params {
+			pt, ok := par.Type().Underlying().(*types.Pointer)
+			if !ok {
+				continue
+			}
+			named, ok := pt.Elem().(*types.Named)
+			if !ok || named.Obj().Pkg() == nil {
+				continue
+			}
+			for _, cl := range vc.P.Contracts.TypeInvs[named.Obj().Pkg().Path()+"."+named.Obj().Name()] {
+				x := substIdent(cl.Expr, "self", par.Name())
+				out[li.ordinal] = append(out[li.ordinal], &Clause{Kind: "invariant", Src: x.String(), Expr: x, Loop: li.ordinal, Cand: true, Tag: fmt.Sprintf("cand%d", len(out[li.ordinal]))})
+			}
+		}
+		for _, fr := range frames {
+			mk(fr + " == old(" + fr + ")")
+			if strings.HasPrefix(fr, "deref(") {
+				mk(fr + " >= old(" + fr + ")")
+			}
+		}
 		allInts := append(append([]string{}, ivars...), ints...)
 		for _, v := range allInts {
 			mk(v + " >= 0")
+			mk(v + " >= -1")
+			mk(v + " >= 1")
 			for _, l := range append(append([]string{}, lens...), svars...) {
 				mk(v + " <= len(" + l + ")")
 				mk(v + " < len(" + l + ")")
@@ -105,8 +156,8 @@ func (vc *VC) candidateInvariants() (map[int][]*Clause, error) {
 				}
 			}
 		}
-		if len(out[li.ordinal]) > 60 {
-			out[li.ordinal] = out[li.ordinal][:60]
+		if len(out[li.ordinal]) > 120 {
+			out[li.ordinal] = out[li.ordinal][:120]
 		}
 	}
 	return out, nil
@@ -170,4 +221,41 @@ func (p *Program) houdini(vc *VC, cfg *CheckConfig, rep *FuncReport) error {
 		sort.Strings(rep.Inferred[ord])
 	}
 	return nil
+}
+
+// substIdent returns a copy of x with identifier from renamed to to.
+func substIdent(x SExpr, from, to string) SExpr {
+	switch n := x.(type) {
+	case *SIdent:
+		if n.Name == from {
+			return &SIdent{to}
+		}
+		return n
+	case *SUnary:
+		return &SUnary{n.Op, substIdent(n.X, from, to)}
+	case *SBinary:
+		return &SBinary{n.Op, substIdent(n.X, from, to), substIdent(n.Y, from, to)}
+	case *SCond:
+		return &SCond{substIdent(n.C, from, to), substIdent(n.A, from, to), substIdent(n.B, from, to)}
+	case *SCall:
+		var args []SExpr
+		for _, a := range n.Args {
+			args = append(args, substIdent(a, from, to))
+		}
+		return &SCall{n.Fn, args}
+	case *SSel:
+		return &SSel{substIdent(n.X, from, to), n.Name}
+	case *SIndex:
+		return &SIndex{substIdent(n.X, from, to), substIdent(n.I, from, to)}
+	case *SSlice:
+		var lo, hi SExpr
+		if n.Lo != nil {
+			lo = substIdent(n.Lo, from, to)
+		}
+		if n.Hi != nil {
+			hi = substIdent(n.Hi, from, to)
+		}
+		return &SSlice{substIdent(n.X, from, to), lo, hi}
+	}
+	return x
 }
